@@ -287,6 +287,21 @@ class RootInterp(Interp):
             return 1 if v else 0
         return self.as_int(v)
 
+    def magnitude(self, v):
+        """|v| of a scalar whose sign is known at the sample point (the tangent is dropped: only used in comparisons)"""
+        v = Dual(self.num(v).a)
+        return self.neg(v) if self.compare(v, ast.Lt(), Dual(0)) else v
+
+    def extremum(self, a, b, smaller):
+        """minimum / maximum of two scalars as JAX differentiates them: the tangent of the selected operand; where the operands are
+        the *same* value (a tie, e.g. a point clipped to the bound it sits on) each operand contributes half of its tangent."""
+        if not (isinstance(a, Dual) and isinstance(b, Dual)):
+            raise EvalError("minimum / maximum of arrays")
+        if _A.equal(a.a, b.a) and not _A.equal(a.b, b.b):
+            return Dual(a.a, _A.norm((a.b + b.b) / R(2)))
+        lt = self.compare(a, ast.Lt(), b)
+        return (a if lt else b) if smaller else (b if lt else a)
+
     def derivative_pair(self, fn, args, kwargs, argnum=0, tangent=None):
         """(value, d value / d args[argnum]) by forward-mode dual numbers; the opaque user function supplies its own rule."""
         a2 = list(args)
@@ -376,6 +391,8 @@ class RootInterp(Interp):
             if t is None:
                 raise EvalError("jvp with a symbolic tangent")
             return self.derivative_pair(fn, primals, {}, 0, tangent=t)
+        if name == "jax.lax.stop_gradient" and args and isinstance(args[0], Dual):
+            return Dual(args[0].a)          # the value without its tangent
         if name in ("jax.lax.stop_gradient", "jax.block_until_ready", "jax.numpy.squeeze", "jax.numpy.ravel", "jax.numpy.real") \
                 and args and (isinstance(args[0], (bool, int, F, Dual)) or is_nan(args[0])):
             return args[0]
@@ -395,6 +412,15 @@ class RootInterp(Interp):
             i = min(max(self.as_index(idx), 0), len(branches) - 1)        # lax.switch clamps the index
             return self.call(branches[i], ops, {})
         if name == "jax.lax.clamp" and len(args) == 3:
+            # lax.clamp(lo, x, hi) passes the tangent of x only strictly inside (lo, hi)
+            lo, x, hi = (self.num(a) for a in args)
+            if isinstance(x, Dual) and isinstance(lo, Dual) and isinstance(hi, Dual):
+                if self.compare(x, ast.Lt(), lo):
+                    return Dual(lo.a)
+                if self.compare(x, ast.Gt(), hi):
+                    return Dual(hi.a)
+                inside = self.compare(x, ast.Gt(), lo) and self.compare(x, ast.Lt(), hi)
+                return x if inside else Dual(x.a)
             return super().call_ext("jax.numpy.clip", [args[1], args[0], args[2]], {})
         if numpy and last in ("full_like",) and len(args) >= 2 and (is_number(args[0]) or is_nan(args[0]) or isinstance(args[0], bool)):
             return args[1]
@@ -432,8 +458,7 @@ class RootInterp(Interp):
             return any(vals) if last == "any" else all(vals)
         if (numpy and last in ("minimum", "maximum", "fmin", "fmax")) and len(args) == 2:
             a, b = self.num(args[0]), self.num(args[1])
-            lt = self.compare(a, ast.Lt(), b)
-            return (a if lt else b) if last in ("minimum", "fmin") else (b if lt else a)
+            return self.extremum(a, b, last in ("minimum", "fmin"))
         if numpy and last == "isnan" and len(args) == 1:
             return is_nan(args[0])
         if numpy and last == "isfinite" and len(args) == 1:
@@ -443,14 +468,38 @@ class RootInterp(Interp):
             return Record("finfo", names, [Dual(_A.atom("@" + n)) for n in names])
         if numpy and last in ("fabs",):
             return super().call_ext("jax.numpy.abs", args, kwargs)
-        if numpy and last == "clip" and (kwargs or len(args) != 3):
+        if numpy and last == "clip":
             pos = list(args)
-            x = pos.pop(0) if pos else kwargs.get("a", kwargs.get("x"))
+            x = pos.pop(0) if pos else kwargs.get("a", kwargs.get("x", kwargs.get("arr")))
             lo = pos.pop(0) if pos else kwargs.get("a_min", kwargs.get("min"))
             hi = pos.pop(0) if pos else kwargs.get("a_max", kwargs.get("max"))
-            if x is None or lo is None or hi is None:
-                raise EvalError("np.clip with an open end")
-            return super().call_ext("jax.numpy.clip", [x, lo, hi], {})
+            if x is None or (lo is None and hi is None):
+                raise EvalError("np.clip without bounds")
+            x = self.num(x)
+            if not isinstance(x, Dual):
+                if lo is None or hi is None:
+                    raise EvalError("np.clip of an array with an open end")
+                return super().call_ext("jax.numpy.clip", [x, lo, hi], {})
+            # jax.numpy.clip(x, lo, hi) is minimum(maximum(x, lo), hi), tangents included
+            if lo is not None:
+                x = self.extremum(x, self.num(lo), False)
+            if hi is not None:
+                x = self.extremum(x, self.num(hi), True)
+            return x
+        if numpy and last in ("isclose", "allclose") and len(args) >= 2 and not any(isinstance(v, (Arr, tuple, list)) for v in args[:2]):
+            # |a - b| <= atol + rtol * |b|
+            if is_nan(args[0]) or is_nan(args[1]):
+                return bool(kwargs.get("equal_nan", False)) and is_nan(args[0]) and is_nan(args[1])
+            a, b = self.num(args[0]), self.num(args[1])
+            rtol = self.num(args[2] if len(args) > 2 else kwargs.get("rtol", F(1, 10 ** 5)))
+            atol = self.num(args[3] if len(args) > 3 else kwargs.get("atol", F(1, 10 ** 8)))
+            return self.compare(self.magnitude(a - b), ast.LtE(), atol + rtol * self.magnitude(b))
+        if name == "math.isclose" and len(args) == 2:
+            # |a - b| <= max(rel_tol * max(|a|, |b|), abs_tol)
+            a, b = self.num(args[0]), self.num(args[1])
+            rel, ab = self.num(kwargs.get("rel_tol", F(1, 10 ** 9))), self.num(kwargs.get("abs_tol", 0))
+            d, ma, mb = self.magnitude(a - b), self.magnitude(a), self.magnitude(b)
+            return self.compare(d, ast.LtE(), rel * ma) or self.compare(d, ast.LtE(), rel * mb) or self.compare(d, ast.LtE(), ab)
         if numpy and last in ("array", "asarray", "float64", "float32", "float_", "int32", "int64", "int_", "bool_") and args:
             v = args[0]
             if isinstance(v, bool):
